@@ -24,7 +24,7 @@ def verdict(path):
 
 tries = {}
 for p in glob.glob("/tmp/wt/try-S-*.log"):
-    m = re.match(r"try-(S-C\d\d-[ABC])-(C\d\d)(-\w+)?\.log", os.path.basename(p))
+    m = re.match(r"try-(S-C\d\d-[ABCD])-(C\d\d)(-\w+)?\.log", os.path.basename(p))
     if m:
         tries[(m.group(1), m.group(2), m.group(3) or "")] = verdict(p)
 official = {}
@@ -57,6 +57,18 @@ with open("/verif/selftest/RESULTS.md", "w") as f:
             if k[0] == s and k[1] != prop:
                 f.write("| %s | %s | | %s (worktree run) | %s | |\n" % (s, k[1], tries[k][0], tries[k][1].replace("|", "/")[:140]))
     f.write("\nfinal, own property: detected %d / %d\n\n" % (nd, len(seeds)))
+    f.write("## Round D (ten more changes)\n\n"
+            "Seed applied to a scratch worktree (`selftest/try_seed.sh`). `after round C`: the checks as committed after round C;\n"
+            "`final`: the committed checks.\n\n| seed | check | after round C | final | first violation (final) |\n|---|---|---|---|---|\n")
+    dseeds = sorted(set(k[0] for k in tries if k[0].endswith("-D")))
+    ndd = 0
+    for s in dseeds:
+        prop = "C" + s[3:5]
+        base = tries.get((s, prop, "-base"), ("?", ""))[0]
+        fin = tries.get((s, prop, "-new2")) or tries.get((s, prop, "-new")) or ("?", "")
+        ndd += fin[0] == "DETECTED"
+        f.write("| %s | %s | %s | %s | %s |\n" % (s, prop, base, fin[0], fin[1].replace("|", "/")[:140]))
+    f.write("\nfinal: detected %d / %d\n\n" % (ndd, len(dseeds)))
     f.write("## Rounds A and B (38 changes) against the final checks\n\n"
             "Seed applied to a scratch worktree, check run with `VERIF_REPO` (`selftest/try_seed.sh`); the sweep of the second\n"
             "session (seed applied to /repo) had detected 38 / 38.\n\n| seed | check | verdict | first violation |\n|---|---|---|---|\n")
